@@ -1,0 +1,42 @@
+//go:build verif
+
+// Contracts for govc (/verif): C31 the batch of transactions formed by the proposal batcher fits the transport limit. Comment-only file.
+//
+// popAndProcessCacheQueue collects the hashes of queued transactions into `batch`; SendTransactionsToPeer later loads the
+// transactions and p2p.buildTransactionsMessage builds  [type][count] ( [4-byte length][Marshal(tx)] )*  from them.
+// The auxiliary variable T is the length of that message for the current batch: 2 + sum over the batch of (4 + len(Marshal(tx))).
+// It is updated exactly where a hash joins the batch.
+
+package kernel
+
+//@ func (node *Node) popAndProcessCacheQueue
+//@   trustpre PayloadHash electSnapshotNode Validate TransactionType ValidatedSize IsSnapshotBatchable   -- their preconditions (transaction well-formedness, membership view) belong to C06/C29, not to the size accounting
+//@   property C31
+//@   requires node != nil && !isnil(node.persistStore)     -- representation invariant of Node: set once by SetupNode
+//@   ghost T = 2
+//@   at "batch = append(batch, hash)" ghost T = ghostvar(T) + 4 + common.MLenOf(tx)
+//@   ensures [fits] ghostvar(T) + p2p.RelayOverhead() <= p2p.TransportMessageMaxSize
+//@   loop 0 invariant [count] len(batch) <= rangeindex + 1 && len(txs) <= common.SnapshotTransactionsMaximum
+//@   loop 0 invariant [nowrap] 0 <= batchSize && batchSize <= (rangeindex + 1) * config.TransactionMaximumSize
+//@   loop 0 invariant [accounted] ghostvar(T) <= 2 + 4 * len(batch) + batchSize
+//@   loop 0 invariant [fits] ghostvar(T) + p2p.RelayOverhead() <= p2p.TransportMessageMaxSize
+//@   loop 0 invariant [elems] forall k int :: 0 <= k && k < len(txs) ==> txs[k] != nil
+
+// ---- the calls around the batch loop: ABSTRACTED. Their effects (node, chain, peer and store state; channels, locks, clock) are
+// ---- outside the footprint of the loop's obligations, which depend only on locals, on the fresh `txs` array and on the sizes
+// ---- of the transactions. `modifies nothing` below means "nothing the batch-size reasoning reads".
+
+//@ assume func (node *Node) QueueState
+//@   modifies nothing
+//@ assume func (node *Node) ListWorkingAcceptedNodes(timestamp)
+//@   modifies nothing
+//@ assume func (node *Node) filterLeadingNodes(all)
+//@   modifies nothing
+//@ assume func (node *Node) findSnapshotNodes
+//@   modifies nothing
+//@ assume func (node *Node) chainCanProposeSnapshot
+//@   modifies nothing
+//@ assume func (node *Node) electSnapshotNode
+//@   modifies nothing
+//@ assume func (node *Node) sendTransactionsToNode(txs, nbor)
+//@   modifies nothing
